@@ -513,6 +513,10 @@ func c19JudgeProc(w *core.Worker, pr core.ProcResult, kind, what string, allowed
 		okCodes[c] = true
 	}
 	bad := ""
+	if pr.KilledFromOutside() {
+		w.Inconclusive(fmt.Sprintf("[%s] the process was ended by signal %d from outside the case", kind, pr.Signal))
+		return true
+	}
 	switch {
 	case pr.TimedOut:
 		bad = "hang: the process had to be killed by the watchdog"
